@@ -8,7 +8,9 @@ covered by the enumeration itself** (a renamed composition is another member of 
 C08.  Each composition is realised as every process kind that gives it a meaning (sequential chain,
 parallel chain, additive chain, MDA chain, nested combinations), with every Jacobian representation
 (dense, csr, JacobianOperator), name sizes in {1, 2}, and linearized through request histories (all
-Jacobians; every (inputs subset, outputs subset); two successive requests on the same process).
+Jacobians; every (inputs subset, outputs subset); two and three successive requests on the same process,
+at the same point, at a moved point and after moving ONE chain input, so that the sub-disciplines that do not
+read it are served by their caches; the process with its own full cache linearized at a former point).
 
 Oracle: *forward* accumulation in the harness (gemseo accumulates in reverse): d(value)/d(process inputs)
 is propagated through the execution order, replaced on overwrite.  The harness disciplines are polynomial
@@ -840,30 +842,36 @@ def run(ctx):
     m2 = 4 if th else 2
     bounds = {
         "P1": f"every two-discipline composition with <= {m2} names per side over 4 names ({len(subsets(POOL, m2)) ** 4} compositions, "
-        "closed under renaming = every sort order of the names) x every process kind (MDOChain, MDOParallelChain, MDOAdditiveChain, "
-        "MDAChain" + (" with and without chain_linearize" if th else "") + ", nested chain[chain,D], chain[par], par[chain]"
-        + "; the thread-based kinds (par, add, chain[par], par[chain]) on the representatives of the renaming classes only"
-        + (" beyond 2 names per side" if th else "")
-        + (", chain[D,chain], chain[chain])" if th else ")") + " x all Jacobians" + (" and the full explicit request" if th else ""),
+        "closed under renaming = every sort order of the names) as MDOChain and MDAChain"
+        + (" (with and without chain_linearize), chain[chain,D], chain[D,chain], chain[chain]" if th else "")
+        + "; the representatives of the renaming classes" + (" (every composition up to 2 names per side)" if th else "")
+        + " as every other kind (MDOParallelChain, MDOAdditiveChain, chain[chain,D], chain[par], par[chain]); all Jacobians"
+        + (" and the full explicit request" if th else ""),
         "P2": "representatives of the renaming classes, <= 2 names per side x every kind x "
-        + ("every (inputs subset, outputs subset) request" if th else "every singleton request and the full request")
-        + "; two-request histories on the same process for MDOChain/MDAChain/chain[chain,D]"
-        + (" and (reduced) every other kind" if th else "")
-        + ": all->all and subset->all after moving one chain input (each in turn), subset->all (same" + ("/moved" if th else "") + " point), all->subset (" + ("same/" if th else "") + "moved point), "
-        + ("subset->full, " if th else "") + "every ordered pair of singleton requests" + (" (disjoint ones also at a moved point)" if th else " (not for chain[chain,D])")
+        + ("every (inputs subset, outputs subset) request" if th else "every singleton request (every other one for the thread-based kinds) and the full request")
+        + "; histories of successive requests on the same process. MDOChain/MDAChain" + ("/chain[chain,D]" if th else "")
+        + ": all->all and subset->all after moving one chain input (each in turn), subset->all (same" + ("/moved" if th else "") + " point), all->subset ("
+        + ("same/" if th else "") + "moved point), " + ("subset->full, every ordered pair of singleton requests (disjoint ones also at a moved point)" if th
+           else "singleton pairs (disjoint: both orders; same input or same output: one order)")
+        + ", three calls (first input -> all inputs at the same point -> all Jacobians after moving the last input). "
+        "Thread-based kinds (par, add, chain[par], par[chain]): all->all after moving one chain input (each in turn), the three calls"
+        + (", subset->all, all->subset, singleton pairs, same output + new input" if th else "; for par and add also subset->all, all->subset, singleton pairs in both orders, same output + new input")
         + ("; representatives with 3-4 names on a side as chain/mda/chain[chain,D]: singleton and full requests" if th else ""),
-        "P3": "three disciplines, <= 2 reads, " + ("<= 2 writes: every composition (10^6, every sort order) as MDOChain; single-write representatives as every other kind incl. 6 nestings" if th else "1 write: representatives x every kind incl. 4 nestings") + ", all Jacobians",
-        "P3r": "three single-write disciplines (representatives) as MDOChain/MDAChain" + ("/chain[chain,D]/chain[D,par]" if th else "") + ": singleton and full requests; all Jacobians, then all Jacobians after moving one chain input (each in turn)" + (", singleton request then all Jacobians at a moved point" if th else ""),
-        "P4": "representatives with <= 2 names per side x every kind: " + ("all 8" if th else "5") + " non-dense representation pairs over {dense, csr, JacobianOperator}, "
+        "P3": "three disciplines, <= 2 reads, " + ("<= 2 writes: every composition (10^6, every sort order) as MDOChain; single-write representatives as every other kind incl. 6 nestings" if th else "1 write: representatives x {chain, par, add, mda, chain[chain,D], chain[par,D]}") + ", all Jacobians",
+        "P3r": "three single-write disciplines (representatives) as MDOChain/MDAChain" + ("/chain[chain,D]/chain[D,par]: singleton" if th else ": every other singleton") + " and full requests; all Jacobians, then all Jacobians after moving one chain input (each in turn)" + (", singleton request then all Jacobians at a moved point" if th else ""),
+        "P4": "representatives with <= 2 names per side x " + ("every kind" if th else "every kind but chain[chain,D], chain[par]") + ": " + ("all 8" if th else "5") + " non-dense representation pairs over {dense, csr, JacobianOperator}, "
         + ("all 15 (5 for the thread-based kinds)" if th else "3 (1 for the thread-based kinds)") + " other size assignments in {1,2}^4; 5 representation mixes along 3-discipline chains",
         "P5": "JSON grammars (the default) on the representatives with <= 2 names per side x {chain, par, add, mda}",
+        "P6": "the PROCESS has its own MemoryFullCache (is_memory_shared=False): representatives with <= 2 names per side x every kind x "
+        "{execute(x1); execute(x2); linearize(x1) | linearize a singleton at x1; execute(x2); linearize all at x1}; signature history='own-full-cache', "
+        "shape='any' (every process whose outer process is an MDOChain is wrong there: C05/C09 known finding)",
         "cases_generated": n,
         "value_table": table,
     }
     return {
         "level": LEVEL,
         "rule": "one case = (composition of 2-3 harness disciplines over 4 names, process tree, Jacobian representations, sizes, "
-        "request history), run on fresh real processes and compared block by block with forward accumulation; non-trivial = a name is "
+        "history of 1-3 linearization requests / executions, process cache), run on fresh real processes and compared block by block with forward accumulation; non-trivial = a name is "
         "overwritten (read or not by the writer) or written by several disciplines, or data flows between disciplines and the request "
         "is not 'all Jacobians'; distinct = distinct case records",
         "exhaustive": True,
@@ -872,7 +880,8 @@ def run(ctx):
             "harness disciplines are polynomial (linear + diagonal quadratic, integer coefficients) evaluated at integer points: comparisons are exact",
             "value alphabet: 3 (coefficients, points) tables rotated by VERIF_SEED; 2 points per table",
             "MDOParallelChain/MDOAdditiveChain with threads, free-running (their schedules are C13's subject)",
-            "oracle boundaries: MDAChain only on acyclic single-writer compositions; no JacobianOperator blocks under MDOAdditiveChain (builtin sum)",
+            "oracle boundaries: MDAChain only on acyclic single-writer compositions; no JacobianOperator blocks under MDOAdditiveChain (builtin sum); "
+            "no MDOAdditiveChain summing a name that a discipline reads without writing it (its _execute adds that input value)",
             "SimpleGrammar for the bulk (speed), JSON grammars on slice P5",
             "representatives = compositions whose names first appear in the order a,b,c,d (>= 1 per renaming class)",
         ],
